@@ -31,6 +31,7 @@ type Result struct {
 	Model   map[string]string
 	File    string
 	Logic   string
+	Pre     *Result // cover obligations after a call: the same query for the state before the call
 }
 
 type solverCfg struct {
@@ -187,11 +188,29 @@ func prepare(c *Ctx, o *Obligation, workDir string) *Result {
 	}
 	file := filepath.Join(workDir, sanitize(o.Name)+".smt2")
 	os.WriteFile(file, []byte(sb.String()), 0o644)
-	return &Result{Obl: o, File: file, Bytes: sb.Len(), Logic: logic, Status: Unknown}
+	res := &Result{Obl: o, File: file, Bytes: sb.Len(), Logic: logic, Status: Unknown}
+	if o.Cover && o.PreCover != nil {
+		po := &Obligation{Name: o.Name + ".before", Kind: "cover", Func: o.Func, Pos: o.Pos, Assume: o.PreCover, Goal: c.True(), Cover: true, Text: o.Text, Unit: o.Unit}
+		res.Pre = prepare(c, po, workDir)
+	}
+	return res
 }
 
 // runSolvers discharges a prepared obligation with the solver portfolio.
 func runSolvers(res *Result, timeoutS int) *Result {
+	runSolvers1(res, timeoutS)
+	if res.Obl.Cover && res.Status != Proved && res.Pre != nil {
+		// the state after the call is not satisfiable: a dead path if the state before was not either
+		runSolvers1(res.Pre, timeoutS)
+		if res.Pre.Status == Refuted {
+			res.Status = Proved
+			res.Solver += " (dead path: the state before the call is unsatisfiable as well)"
+		}
+	}
+	return res
+}
+
+func runSolvers1(res *Result, timeoutS int) *Result {
 	o, file := res.Obl, res.File
 	start := time.Now()
 
